@@ -289,3 +289,71 @@ Proof.
     + unfold same_handle. cbn. tauto.
     + intros i Hi. cbn [cache ntr set_tracts] in *. specialize (Hc i Hi). fold n in Hc. lia.
 Qed.
+
+(* ---------- readAt ---------- *)
+Lemma read_tracts_spec : forall tl T k o padAll, 0 < tl ->
+  forall cnt j p acc,
+  (cnt > 0)%nat -> p < k -> j * tl <= o + p -> o + p < (j + 1) * tl ->
+  (j + N.of_nat cnt - 1) * tl < o + k ->
+  let rs := read_tracts tl cnt j T k o p in
+  let D := concat (map snd rs) in
+  let L := j + N.of_nat cnt - 1 in
+  let gL := N.max (o + p) (L * tl) in
+  let gend := N.min (o + k) ((L + 1) * tl) in
+  let stored := L * tl + rlen (T L) in
+  o + p + rlen D = gend /\
+  (forall y, y < rlen D -> rget D y = tget tl T (o + p + y)) /\
+  fold_results padAll (map fst rs) acc E_OK =
+    (if padAll || (gend <=? stored) then (acc + (gend - (o + p)), E_OK)
+     else (acc + (N.max gL stored - (o + p)), E_EOF)).
+Proof.
+  intros tl T k o padAll Htl. induction cnt as [|c IH]; intros j p acc Hc Hp Hj1 Hj2 He; [lia|].
+  cbn [read_tracts].
+  pose proof (next_range_spec tl k o p j Htl Hp Hj1 Hj2) as Hn.
+  destruct (next_range tl k o p) as [toff tlen]. destruct Hn as (Htoff & Htlen & Hsum).
+  pose proof (read_one_spec (T j) toff tlen) as Hr.
+  destruct (read_one (T j) toff tlen) as [[[w r] e] piece]. destruct Hr as (Hw & Hrr & Hee & Hpl & Hpg).
+  assert (Hpiece : forall y, y < tlen -> rget piece y = tget tl T (o + p + y)).
+  { intros y Hy. rewrite Hpg by auto. unfold tget.
+    destruct (div_mod_tract tl (o + p + y) j Htl) as [Hd Hm]; try lia.
+    rewrite Hd, Hm. f_equal. lia. }
+  destruct c as [|c'].
+  - (* the last returned tract *)
+    cbn [read_tracts map concat fst snd fold_results]. rewrite app_nil_r.
+    replace (j + N.of_nat 1 - 1) with j by lia.
+    replace ((j + 1) * tl) with (j * tl + tl) in * by lia.
+    split; [lia|]. split; [intros y Hy; apply Hpiece; lia|].
+    subst w r e.
+    destruct (N.ltb_spec (rlen (T j)) (toff + tlen)).
+    + change (E_EOF =? E_OK) with false. change (E_EOF =? E_EOF) with true. cbn match.
+      destruct padAll; cbn [orb].
+      * cbn [fold_results]. f_equal. lia.
+      * destruct (N.leb_spec (N.min (o + k) (j * tl + tl)) (j * tl + rlen (T j))); [lia|]. f_equal. lia.
+    + change (E_OK =? E_OK) with true. cbn match. cbn [fold_results].
+      destruct (N.leb_spec (N.min (o + k) (j * tl + tl)) (j * tl + rlen (T j))); [|lia].
+      rewrite orb_true_r. f_equal. lia.
+  - (* an earlier tract: always counted in full *)
+    assert (Hmore : (j + 1) * tl < o + k) by nia.
+    assert (Hs : o + (p + tlen) = (j + 1) * tl) by lia.
+    specialize (IH (j + 1) (p + tlen) (acc + tlen)).
+    destruct IH as (IH1 & IH2 & IH3); try lia; try nia.
+    replace (j + 1 + N.of_nat (S c') - 1) with (j + N.of_nat (S (S c')) - 1) in * by lia.
+    set (L := j + N.of_nat (S (S c')) - 1) in *.
+    assert (HL : (j + 1) * tl <= L * tl) by (apply N.mul_le_mono_r; lia).
+    set (rest := read_tracts tl (S c') (j + 1) T k o (p + tlen)) in *.
+    cbn [map concat fst snd]. rewrite rlen_app, Hpl.
+    split; [lia|]. split.
+    + intros y Hy. rewrite rget_app, Hpl. destruct (N.ltb_spec y tlen).
+      * apply Hpiece; auto.
+      * rewrite IH2 by lia. f_equal. lia.
+    + assert (Hfold : fold_results padAll ((w, r, e) :: map fst rest) acc E_OK =
+                      fold_results padAll (map fst rest) (acc + tlen) E_OK).
+      { cbn [fold_results]. subst w r e.
+        destruct (N.ltb_spec (rlen (T j)) (toff + tlen)).
+        - change (E_EOF =? E_OK) with false. change (E_EOF =? E_EOF) with true. cbn match.
+          unfold rest. cbn [read_tracts]. destruct (next_range tl k o (p + tlen)). cbn [map]. reflexivity.
+        - change (E_OK =? E_OK) with true. cbn match. f_equal. lia. }
+      rewrite Hfold, IH3.
+      replace (N.max (o + (p + tlen)) (L * tl)) with (N.max (o + p) (L * tl)) by lia.
+      destruct (padAll || (N.min (o + k) ((L + 1) * tl) <=? L * tl + rlen (T L))); f_equal; lia.
+Qed.
